@@ -4,6 +4,7 @@ avocado_i2n/cartgraph/node.py:
     TestNode.is_setup_ready / is_cleanup_ready      -> genIsSetupReady / genIsCleanupReady
     TestNode.drop_parent / drop_child               -> genDropParent / genDropChild
     TestNode.pick_parent / pick_child               -> genPickParent / genPickChild
+    TestNode.shared_result_worker_ids               -> genSharedResultWorkerIds      (GenLoc.lean, C08)
 
 `extract_ready(ctx)` regenerates lean/I2N/Extracted/GenReady.lean from /repo's CURRENT source (the environment variable
 PYGEN_NODE_SRC names another file for mutation sanity runs); it is called by `extract(ctx)` of harness/props/c02.py.
@@ -49,8 +50,9 @@ def _ready_spec(which):
 
 READY_PRELUDE = [
     "/-- `<register>.register(node, worker)` on one of the four edge registers of the class of `self` (bridged copies",
-    "share the register objects); `key` = (class of `node`, worker) -/",
-    "abbrev RegM := StateT ClassRegs (Except String)",
+    "share the register objects); `key` = (class of `node`, worker).  The exception layer is OUTSIDE the state: what was",
+    "registered before a `raise` stays registered, as in Python -/",
+    "abbrev RegM := ExceptT String (StateM ClassRegs)",
     "def registerDroppedSetup (key : Nat × Nat) : RegM Unit :=",
     "  modify (fun r => { r with droppedSetup := regAdd r.droppedSetup key })",
     "def registerDroppedCleanup (key : Nat × Nat) : RegM Unit :=",
@@ -80,7 +82,7 @@ PICK_PRELUDE = [
     "",
     "/-- `test_node._picked_by_<side>_nodes.register(self, worker)`: the register object belongs to the class of the picked",
     "node (bridged copies share it); `key` = (class of `self`, worker) -/",
-    "abbrev PickM := StateT State (Except String)",
+    "abbrev PickM := ExceptT String (StateM State)",
     "def registerPickedByCleanup (g : Graph) (p : Nat) (key : Nat × Nat) : PickM Unit :=",
     "  modify (fun s => s.setCr (g.node p).cls (fun r => { r with pickedByCleanup := regAdd r.pickedByCleanup key }))",
     "def registerPickedBySetup (g : Graph) (p : Nat) (key : Nat × Nat) : PickM Unit :=",
@@ -119,6 +121,33 @@ def _pick_spec(which, first=False):
             f"`prefix_priority` (an atom, exported as ranks), `key` = (class of `self`, `worker`)")
 
 
+WORKER_IDS = "[w.id for s in TestSwarm.run_swarms.values() for w in s.workers]"
+
+RESULT_IDS_SPEC = Spec(
+    "genSharedResultWorkerIds",
+    binders=[("shared", "List Result"), ("workerIds", "List String")],
+    params={}, ret="sset", monad="pure",
+    atoms={"self.shared_results": ("shared", ("list", "Result")),
+           WORKER_IDS: ("workerIds", "slist")},
+    fields={("Result", "['status']"): ("{0}.status", "str"), ("Result", "['name']"): ("{0}.name", "str")},
+    local_types={"workers": "sset"}, prims={"substr": "strIn"},
+    doc="`TestNode.shared_result_worker_ids` of avocado_i2n/cartgraph/node.py.  `shared` = `self.shared_results`, "
+        "`workerIds` = the ids of all workers of `TestSwarm.run_swarms` in swarm / worker order; the result is a SET: the "
+        "list stands for its elements (order and repetitions mean nothing)")
+
+
+def loc_source(path=None):
+    path = path or pygen._src("PYGEN_NODE_SRC", NODE)
+    defs = [pygen.generate(path, "TestNode.shared_result_worker_ids", RESULT_IDS_SPEC)]
+    return pygen.render_file("harness/pygen_pxready.py:extract_loc (called by harness/props/c08.py:extract) from "
+                             "avocado_i2n/cartgraph/node.py", ["I2N.Model.Trav"], "I2N.Extracted.GenLoc", ["I2N.Trav"],
+                             defs)
+
+
+def extract_loc(ctx=None):
+    return pygen.write_if_changed(pygen._lean_path("GenLoc.lean"), loc_source())
+
+
 def ready_source(path=None):
     path = path or pygen._src("PYGEN_NODE_SRC", NODE)
     defs = [pygen.generate(path, "TestNode.is_setup_ready", _ready_spec("setup")),
@@ -136,7 +165,7 @@ def extract_ready(ctx=None):
     return pygen.write_if_changed(pygen._lean_path("GenReady.lean"), ready_source())
 
 
-SOURCES = {"ready": ready_source}
+SOURCES = {"ready": ready_source, "loc": loc_source}
 
 if __name__ == "__main__":
     for name in sys.argv[1:] or list(SOURCES):
